@@ -12,12 +12,14 @@ use std::path::{Path, PathBuf};
 use std::rc::Rc;
 use std::time::{Duration, SystemTime, UNIX_EPOCH};
 
-pub const BUGGIFY_SITES: [&str; 5] = [
+pub const BUGGIFY_SITES: [&str; 7] = [
     "write.after_dup_check",
     "delete.between_locks",
     "write.before_update_msg",
     "dump.per_blob",
     "worker.between_locks",
+    "lock.storage",
+    "lock.blob",
 ];
 
 pub const EIO: i32 = 5;
@@ -265,6 +267,8 @@ pub struct Inner {
     // clocks
     pub base_ms: u64,
     pub session_start: Option<tokio::time::Instant>,
+    /// last simulated time observed inside the session's runtime
+    pub last_ms: Cell<u64>,
     pub skew_ms: i64,
     // tap
     pub trace: Vec<TraceEvent>,
@@ -305,6 +309,8 @@ pub struct Inner {
 pub struct World {
     pub inner: RefCell<Inner>,
     pub kill_flag: Cell<bool>,
+    /// set by the busy-wait detector: tasks spin without any progress
+    pub hung_flag: Cell<bool>,
     pub kill_notify: Rc<tokio::sync::Notify>,
 }
 
@@ -326,6 +332,7 @@ impl World {
                 track_durable,
                 base_ms: 0,
                 session_start: None,
+                last_ms: Cell::new(0),
                 skew_ms: 0,
                 trace: Vec::new(),
                 keep_trace,
@@ -359,6 +366,7 @@ impl World {
                 query_phase: false,
             }),
             kill_flag: Cell::new(false),
+            hung_flag: Cell::new(false),
             kill_notify: Rc::new(tokio::sync::Notify::new()),
         })
     }
@@ -388,11 +396,13 @@ impl World {
         w.jobs_in_flight = 0;
         w.cur_tag = None;
         self.kill_flag.set(false);
+        self.hung_flag.set(false);
     }
 
     pub fn end_session(&self) {
         let mut w = self.inner.borrow_mut();
-        let now = w.sim_ms();
+        // the runtime (and its clock) is gone by now: use the last time observed inside it
+        let now = w.last_ms.get().max(w.base_ms);
         w.base_ms = now + 1000; // a restart takes a second of simulated wall time
         w.session_start = None;
         w.cur_tag = None;
@@ -578,7 +588,11 @@ impl World {
 impl Inner {
     pub fn sim_ms(&self) -> u64 {
         match self.session_start {
-            Some(s) => self.base_ms + (tokio::time::Instant::now() - s).as_millis() as u64,
+            Some(s) => {
+                let v = self.base_ms + (tokio::time::Instant::now() - s).as_millis() as u64;
+                self.last_ms.set(v.max(self.last_ms.get()));
+                v
+            }
             None => self.base_ms,
         }
     }
@@ -1077,6 +1091,9 @@ impl SimHooks for World {
 
     fn job_begin(&self) -> (u64, Option<Duration>) {
         let mut w = self.inner.borrow_mut();
+        crate::exec::WATCH_JOBS.store(w.next_job, std::sync::atomic::Ordering::Relaxed);
+        crate::exec::WATCH_SIMMS.store(w.sim_ms(), std::sync::atomic::Ordering::Relaxed);
+        crate::exec::WATCH_SEQ.store(w.seq, std::sync::atomic::Ordering::Relaxed);
         let token = w.next_job;
         w.next_job += 1;
         let tag = w.cur_tag;
@@ -1135,8 +1152,8 @@ impl SimHooks for World {
 
     fn now(&self) -> SystemTime {
         let w = self.inner.borrow();
-        let ms = w.sim_ms() as i64 + w.skew_ms;
-        UNIX_EPOCH + Duration::from_secs(1_700_000_000) + Duration::from_millis(ms.max(0) as u64)
+        let ms = 1_700_000_000_000i64 + w.sim_ms() as i64 + w.skew_ms;
+        UNIX_EPOCH + Duration::from_millis(ms.max(0) as u64)
     }
 
     fn file_created_at(&self, path: &Path) -> Option<SystemTime> {
@@ -1156,6 +1173,11 @@ impl SimHooks for World {
         }
     }
 
+    fn lock_poll(&self) {
+        crate::exec::WATCH_POLLS.fetch_add(1, std::sync::atomic::Ordering::Relaxed);
+        crate::exec::storm_breaker(self);
+    }
+
     fn buggify(&self, site: &str) -> bool {
         let mut w = self.inner.borrow_mut();
         let Some(i) = BUGGIFY_SITES.iter().position(|s| *s == site) else { return false };
@@ -1164,7 +1186,7 @@ impl SimHooks for World {
         }
         w.buggify_ctr += 1;
         let h = mix_all(&[w.sched.seed, 3, i as u64, w.buggify_ctr]);
-        let y = h % 2 == 0;
+        let y = if i >= 5 { h % 4 == 0 } else { h % 2 == 0 };
         if y {
             w.probes.bump("buggify_yield");
         }
